@@ -65,8 +65,22 @@ type extension struct {
 	Data []byte
 }
 
+// Marshal returns the ClientHello as one or, when the message does not fit in
+// a single record, several TLS records (RFC 8446 Section 5.1).
 func (c *clientHello) Marshal() ([]byte, error) {
-	return c.marshal(false)
+	msg, err := c.marshal(false)
+	if err != nil {
+		return nil, err
+	}
+	var out []byte
+	for {
+		n := min(len(msg), 16384)
+		out = append(out, 0x16, byte(c.LegacyVersion>>8), byte(c.LegacyVersion), byte(n>>8), byte(n))
+		out = append(out, msg[:n]...)
+		if msg = msg[n:]; len(msg) == 0 {
+			return out, nil
+		}
+	}
 }
 
 func (c *clientHello) marshalAAD() ([]byte, error) {
@@ -74,45 +88,42 @@ func (c *clientHello) marshalAAD() ([]byte, error) {
 	if err != nil {
 		return nil, err
 	}
-	return m[9:], nil
+	return m[4:], nil
 }
 
+// marshal returns the handshake message.
 func (c *clientHello) marshal(aad bool) ([]byte, error) {
 	b := cryptobyte.NewBuilder(nil)
-	b.AddUint8(0x16)
-	b.AddUint16(c.LegacyVersion)
-	b.AddUint16LengthPrefixed(func(b *cryptobyte.Builder) {
-		b.AddUint8(0x01)
-		b.AddUint24LengthPrefixed(func(b *cryptobyte.Builder) {
-			b.AddUint16(c.LegacyVersion)
-			b.AddBytes(c.Random)
-			b.AddUint8LengthPrefixed(func(b *cryptobyte.Builder) {
-				b.AddBytes(c.LegacySessionID)
-			})
-			b.AddUint16LengthPrefixed(func(b *cryptobyte.Builder) {
-				b.AddBytes(c.CipherSuite)
-			})
-			b.AddUint8LengthPrefixed(func(b *cryptobyte.Builder) {
-				b.AddBytes(c.LegacyCompressionMethods)
-			})
+	b.AddUint8(0x01)
+	b.AddUint24LengthPrefixed(func(b *cryptobyte.Builder) {
+		b.AddUint16(c.LegacyVersion)
+		b.AddBytes(c.Random)
+		b.AddUint8LengthPrefixed(func(b *cryptobyte.Builder) {
+			b.AddBytes(c.LegacySessionID)
+		})
+		b.AddUint16LengthPrefixed(func(b *cryptobyte.Builder) {
+			b.AddBytes(c.CipherSuite)
+		})
+		b.AddUint8LengthPrefixed(func(b *cryptobyte.Builder) {
+			b.AddBytes(c.LegacyCompressionMethods)
+		})
 
-			if c.noExtensions {
-				return
+		if c.noExtensions {
+			return
+		}
+		b.AddUint16LengthPrefixed(func(b *cryptobyte.Builder) {
+			for _, ext := range c.Extensions {
+				b.AddUint16(ext.Type)
+				b.AddUint16LengthPrefixed(func(b *cryptobyte.Builder) {
+					if aad && ext.Type == 0xfe0d {
+						n := len(ext.Data) - len(c.echExt.Payload)
+						b.AddBytes(ext.Data[:n])
+						b.AddBytes(make([]byte, len(ext.Data[n:])))
+						return
+					}
+					b.AddBytes(ext.Data)
+				})
 			}
-			b.AddUint16LengthPrefixed(func(b *cryptobyte.Builder) {
-				for _, ext := range c.Extensions {
-					b.AddUint16(ext.Type)
-					b.AddUint16LengthPrefixed(func(b *cryptobyte.Builder) {
-						if aad && ext.Type == 0xfe0d {
-							n := len(ext.Data) - len(c.echExt.Payload)
-							b.AddBytes(ext.Data[:n])
-							b.AddBytes(make([]byte, len(ext.Data[n:])))
-							return
-						}
-						b.AddBytes(ext.Data)
-					})
-				}
-			})
 		})
 	})
 	return b.Bytes()
